@@ -1,8 +1,8 @@
 SPECIFICATION Spec
 CONSTANTS Box = 13
- Quota = 5
+ Quota = 6
  EQuota = 6
- MQuota = 4
+ MQuota = 6
 INVARIANT ClipOK
 INVARIANT RefineOK
 INVARIANT LemmaOK
